@@ -88,7 +88,10 @@ def run_chain(cfg, ops0, gens_ops, seed, counters, ngen=None, record=None):
     prev = s
     for gi in range(n):
         env.CLOCK.advance(3600 * 24)
-        s2, oc = prev.reopen(data)
+        # two chains in five go on in the very object that mastered the image (close(), then open)
+        reuse = (seed + gi) % 5 < 2
+        counters['generations_in_reused_object'] = counters.get('generations_in_reused_object', 0) + int(reuse)
+        s2, oc = prev.reopen(data, reuse=reuse)
         if not oc.ok:
             vio.append({'key': 'reopen-raises:%s@%s' % (oc.exc_class, oc.exc_where), 'detail': 'generation %d: %s' % (gi + 1, oc.exc_msg)})
             break
